@@ -789,7 +789,9 @@
            ((not to)
             (reverse (cons `(* ,sre) res)))
            ((= from to)
-            (reverse (cons sre (cdr res))))
+            (if (zero? from)
+                '(:)
+                (reverse (cons sre (cdr res)))))
            (else
             (let lp ((i (+ i 1)) (res res))
               (if (>= i to)
